@@ -2,6 +2,7 @@ CONSTANTS
   N = 1
   MaxTasks = 2
   G = 2
+  Stops = 2
   Dev = {}
 SPECIFICATION Spec
 CHECK_DEADLOCK FALSE
